@@ -7,6 +7,7 @@ import (
 
 	"github.com/gordian-engine/gordian/tm/tmconsensus"
 	"github.com/gordian-engine/gordian/tm/tmengine/internal/tmmirror"
+	"github.com/gordian-engine/gordian/tm/tmengine/internal/tmstate"
 )
 
 // The Mirror follows the state of the active validators on the network,
@@ -30,12 +31,20 @@ func NewMirror(ctx context.Context, log *slog.Logger, opts ...Opt) (Mirror, erro
 	// Note that we never start the Engine we instantiate.
 	var e Engine
 
+	// Many options also write to the state machine configuration;
+	// a standalone mirror has no state machine, so collect those writes in a scratch value.
+	var smCfg tmstate.StateMachineConfig
+
 	var err error
 	for _, opt := range opts {
-		err = errors.Join(err, opt(&e, nil))
+		err = errors.Join(err, opt(&e, &smCfg))
 	}
 	if err != nil {
 		return nil, err
+	}
+
+	if e.genesis == nil {
+		return nil, errors.New("no genesis set (use tmengine.WithGenesis)")
 	}
 
 	cfg := e.mCfg
